@@ -107,6 +107,8 @@ def run(chk):
 
 def replay(chk, path):
     case = json.load(open(path))["payload"]
+    if vlib.replay_generic(chk, case):
+        chk.finish(rule="re-validation of one recorded trace / batch job")
     rows = vlib.replay(chk, case["curve"], [case["program"]], "replay")
     report(chk, rows, "handles")
     chk.finish(rule="replay of one recorded case")
